@@ -168,109 +168,121 @@ def registry_rules(repo: Repo, rep, spec, P: str):
 
 
 def meta_rules(repo: Repo, rep, P: str):
-    """ModuleMeta numbers controllers from 1 in definition order."""
+    """ModuleMeta numbers controllers from 1 in definition order, collects options, registers the class under its mtype.
+    Read on the normal form of ModuleMeta.__init__ (its private steps inlined), whatever they are called."""
+    from .. import inline
+    from ..packed import single_defs, resolve_names
     meta = repo.cls("ModuleMeta", module="rv.modules.meta")
     construct = f"{meta.file.rel}:ModuleMeta"
-    fn = None
-    for name, f in meta.methods.items():
-        if name.endswith("init_controllers"):
-            fn = f
-    if fn is None:
-        raise AnchorMissing("ModuleMeta.__init_controllers")
-    rep.func("rv.modules.meta.ModuleMeta.__init_controllers")
-    src = norm(fn)
-    sort_ok = False
-    enum_start = None
-    sort_line = enum_line = None
-    assigns_number = False
+    fn = repo.own_method(meta, "__init__")
+    rep.func("rv.modules.meta.ModuleMeta.__init__ (+ private steps)")
+    defs = single_defs(fn)
+    cparam = fn.args.args[0].arg if fn.args.args else "cls"
+    # --- sort by definition order
+    sorts = []
     for node in ast.walk(fn):
-        if isinstance(node, ast.Call) and isinstance(node.func, ast.Attribute) and node.func.attr == "sort":
-            for kw in node.keywords:
-                if kw.arg == "key" and "_order" in norm(kw.value):
-                    sort_ok = True
-                    sort_line = node.lineno
-                if kw.arg == "reverse":
-                    try:
-                        if ast.literal_eval(kw.value):
-                            sort_ok = False
-                    except Exception:
-                        sort_ok = False
-        if isinstance(node, ast.Call) and norm(node.func) == "sorted":
-            for kw in node.keywords:
-                if kw.arg == "key" and "_order" in norm(kw.value):
-                    sort_ok = True
-                    sort_line = node.lineno
-        if isinstance(node, ast.For) and isinstance(node.iter, ast.Call) and norm(node.iter.func) == "enumerate":
-            start = 0
-            if len(node.iter.args) > 1:
+        if isinstance(node, ast.Call) and ((isinstance(node.func, ast.Attribute) and node.func.attr == "sort") or norm(node.func) == "sorted"):
+            key = next((kw.value for kw in node.keywords if kw.arg == "key"), None)
+            rev = next((kw.value for kw in node.keywords if kw.arg == "reverse"), None)
+            if key is not None and "_order" in norm(resolve_names(key, defs)):
                 try:
-                    start = repo.fold(node.iter.args[1])
-                except NotConst:
-                    start = None
-            for kw in node.iter.keywords:
-                if kw.arg == "start":
-                    try:
-                        start = repo.fold(kw.value)
-                    except NotConst:
-                        start = None
-            # the loop that assigns .number
-            body_src = " ".join(norm(s) for s in node.body)
-            if ".number = " in body_src:
-                enum_start = start
-                enum_line = node.lineno
-                tgt = norm(node.target)
-                ivar = node.target.elts[0].id if isinstance(node.target, ast.Tuple) and isinstance(node.target.elts[0], ast.Name) else None
-                assigns_number = ivar is not None and f".number = {ivar}" in body_src
-    if sort_ok and (enum_line is None or sort_line is None or sort_line < enum_line):
-        rep.ok(f"{P}.meta.sort", construct, "ordered_controllers.sort(key=_order)")
-    else:
+                    backwards = rev is not None and bool(ast.literal_eval(rev))
+                except Exception:
+                    backwards = True
+                sorts.append((node, backwards))
+    # --- numbering: <controller>.number = <index> with the index counting from 1 over the sorted sequence
+    number_stores = [n for n in ast.walk(fn) if isinstance(n, ast.Assign) and any(isinstance(t, ast.Attribute) and t.attr == "number" for t in n.targets)]
+    starts = []
+    for st in number_stores:
+        idx = st.value
+        loop = next((lp for lp in ast.walk(fn) if isinstance(lp, ast.For) and any(x is st for x in ast.walk(lp))
+                     and any(isinstance(t, ast.Name) and t.id == norm(idx) for t in ast.walk(lp.target))), None)
+        if loop is None or not isinstance(idx, ast.Name):
+            starts.append(("?", st))
+            continue
+        it = resolve_names(loop.iter, defs)
+        start = "?"
+        first = loop.target.elts[0] if isinstance(loop.target, ast.Tuple) and loop.target.elts else None
+        if isinstance(it, ast.Call) and norm(it.func) == "enumerate" and isinstance(first, ast.Name) and first.id == idx.id:
+            sv = it.args[1] if len(it.args) > 1 else next((kw.value for kw in it.keywords if kw.arg == "start"), ast.Constant(value=0))
+            try:
+                start = repo.fold(sv)
+            except NotConst:
+                start = "?"
+        elif isinstance(it, ast.Call) and norm(it.func) == "zip" and it.args and isinstance(first, ast.Name) and first.id == idx.id \
+                and isinstance(it.args[0], ast.Call) and norm(it.args[0].func).split(".")[-1] == "count":
+            ca = it.args[0].args
+            try:
+                start = repo.fold(ca[0]) if ca else 0
+                if len(ca) > 1 and repo.fold(ca[1]) != 1:
+                    start = "?"
+            except NotConst:
+                start = "?"
+        starts.append((start, st))
+    where = f"{meta.file.rel}:{fn.lineno}"
+    if sorts and not any(b_ for _, b_ in sorts) and (not number_stores or min(inline.pos(x) for x, _ in sorts) < min(inline.pos(st) for st in number_stores)):
+        rep.ok(f"{P}.meta.sort", construct, "controllers sorted by _order before numbering")
+    elif sorts and any(b_ for _, b_ in sorts):
+        rep.violation(f"{P}.meta.sort", construct, "sort by _order, reversed", "controllers are no longer sorted by definition order before being numbered", where)
+    elif not sorts:
         rep.violation(f"{P}.meta.sort", construct, "sort by _order before numbering",
-                      "controllers are no longer sorted by definition order before being numbered",
-                      f"{meta.file.rel}:{fn.lineno}")
-    if enum_start == 1 and assigns_number:
-        rep.ok(f"{P}.meta.number", construct, "enumerate(ordered_controllers, 1)")
+                      "controllers are no longer sorted by definition order before being numbered", where)
     else:
-        rep.violation(f"{P}.meta.number", construct, f"enumerate(..., {enum_start})",
-                      "controller numbers must start at 1 and be assigned from the enumeration index",
-                      f"{meta.file.rel}:{enum_line or fn.lineno}")
-    # Controller.__init__: _order from the class counter, then incremented
+        rep.inconclusive(f"{P}.meta.sort", construct, "sort after numbering?", "order of sorting and numbering not recognised", where)
+    if starts and all(s0 == 1 for s0, _ in starts):
+        rep.ok(f"{P}.meta.number", construct, "numbered from 1 by position in definition order")
+    elif not number_stores:
+        rep.violation(f"{P}.meta.number", construct, ".number = …", "controllers are no longer numbered", where)
+    elif any(s0 == "?" for s0, _ in starts):
+        rep.inconclusive(f"{P}.meta.number", construct, "; ".join(norm(st) for _, st in starts), "numbering scheme not recognised", where)
+    else:
+        rep.violation(f"{P}.meta.number", construct, f"numbering starts at {sorted({s0 for s0, _ in starts})}",
+                      "controller numbers must start at 1 and be assigned from the enumeration index", where)
+    # --- Controller.__init__: _order from the class counter, then incremented
     ctl = repo.cls("Controller", module="rv.controller")
     init = repo.own_method(ctl, "__init__")
     rep.func("rv.controller.Controller.__init__")
-    st = [norm(s) for s in init.body]
-    try:
-        i1 = next(i for i, s in enumerate(st) if s.replace(" ", "") == "self._order=Controller._next_order")
-        i2 = next(i for i, s in enumerate(st) if s.replace(" ", "") in ("Controller._next_order+=1", "Controller._next_order=Controller._next_order+1"))
-        ok = i1 < i2
-    except StopIteration:
-        ok = False
-    if ok:
+    idefs = single_defs(init)
+    takes = [n for n in ast.walk(init) if isinstance(n, ast.Assign) and any(norm(t) == "self._order" for t in n.targets)]
+    taken_ok = [n for n in takes if norm(resolve_names(n.value, idefs)) in ("Controller._next_order", "type(self)._next_order", "self.__class__._next_order")]
+    incs = [n for n in ast.walk(init) if (isinstance(n, ast.AugAssign) and norm(n.target).endswith("._next_order") and isinstance(n.op, ast.Add)
+                                          and norm(n.value) == "1")
+            or (isinstance(n, ast.Assign) and any(norm(t).endswith("._next_order") for t in n.targets)
+                and norm(n.value).replace(" ", "") in ("Controller._next_order+1", "1+Controller._next_order"))]
+    # the value may have been read into a temporary before the increment
+    reads = [n for n in ast.walk(init) if isinstance(n, ast.Assign) and len(n.targets) == 1 and isinstance(n.targets[0], ast.Name)
+             and norm(n.value) in ("Controller._next_order", "type(self)._next_order", "self.__class__._next_order")]
+    first_read = min([inline.pos(n) for n in reads + taken_ok] or [10 ** 9])
+    if takes and len(taken_ok) == len(takes) and incs and first_read < min(inline.pos(n) for n in incs):
         rep.ok(f"{P}.meta.order", f"{ctl.file.rel}:Controller.__init__", "self._order = Controller._next_order; += 1")
-    else:
-        rep.violation(f"{P}.meta.order", f"{ctl.file.rel}:Controller.__init__", "; ".join(st[-3:]),
+    elif not takes or not incs:
+        rep.violation(f"{P}.meta.order", f"{ctl.file.rel}:Controller.__init__", "; ".join(norm(n) for n in takes + incs)[:160],
                       "definition-order counter is not taken then incremented", f"{ctl.file.rel}:{init.lineno}")
-    # registry by mtype
-    reg = None
-    for name, f in meta.methods.items():
-        if name.endswith("init_registry"):
-            reg = f
-    if reg is None:
-        raise AnchorMissing("ModuleMeta.__init_registry")
-    body = " ".join(norm(s) for s in reg.body)
-    if "MODULE_CLASSES[mtype] = cls" in body and "getattr(cls, 'mtype', None)" in body:
-        rep.ok(f"{P}.meta.registry", construct, "MODULE_CLASSES[mtype] = cls")
+    elif len(taken_ok) == len(takes):
+        rep.violation(f"{P}.meta.order", f"{ctl.file.rel}:Controller.__init__", "; ".join(norm(n) for n in takes + incs)[:160],
+                      "definition-order counter is not taken then incremented (incremented first)", f"{ctl.file.rel}:{init.lineno}")
     else:
-        rep.violation(f"{P}.meta.registry", construct, body[:120],
-                      "classes are no longer registered under their mtype", f"{meta.file.rel}:{reg.lineno}")
-    # __init__ calls the steps
-    init_fn = repo.own_method(meta, "__init__")
-    called = {norm(c.func).split(".")[-1] for c in ast.walk(init_fn) if isinstance(c, ast.Call)}
-    for need in ("__init_registry", "__init_controllers", "__init_options"):
-        if need in called:
-            rep.ok(f"{P}.meta.init", construct, need, nontrivial=False)
+        rep.inconclusive(f"{P}.meta.order", f"{ctl.file.rel}:Controller.__init__", "; ".join(norm(n) for n in takes)[:160],
+                         "source of the definition-order number not recognised", f"{ctl.file.rel}:{init.lineno}")
+    # --- registry by mtype
+    regs = [n for n in ast.walk(fn) if isinstance(n, ast.Assign) and any(isinstance(t, ast.Subscript) and norm(t.value).split(".")[-1] == "MODULE_CLASSES"
+                                                                       for t in n.targets)]
+    good_reg = [n for n in regs if norm(n.value) == cparam and any(
+        isinstance(t, ast.Subscript) and norm(resolve_names(t.slice, defs)) in (f"getattr({cparam}, 'mtype', None)", f"{cparam}.mtype") for t in n.targets)]
+    if good_reg:
+        rep.ok(f"{P}.meta.registry", construct, "MODULE_CLASSES[mtype] = cls")
+    elif regs:
+        rep.violation(f"{P}.meta.registry", construct, norm(regs[0])[:120], "classes are no longer registered under their mtype", where)
+    else:
+        rep.violation(f"{P}.meta.registry", construct, "MODULE_CLASSES[…] = cls", "classes are no longer registered under their mtype", where)
+    # --- the per-class tables are built
+    for need in ("controllers", "options"):
+        if any(isinstance(n, ast.Assign) and any(norm(t) == f"{cparam}.{need}" for t in n.targets) for n in ast.walk(fn)):
+            rep.ok(f"{P}.meta.init", construct, f"cls.{need} = …", nontrivial=False)
         else:
-            rep.violation(f"{P}.meta.init", construct, need, "ModuleMeta.__init__ no longer runs this step",
-                          f"{meta.file.rel}:{init_fn.lineno}")
+            rep.violation(f"{P}.meta.init", construct, f"cls.{need}", "ModuleMeta.__init__ no longer runs this step", where)
+    if regs:
+        rep.ok(f"{P}.meta.init", construct, "registry", nontrivial=False)
 
 
 def template_rules(repo: Repo, rep, P: str):
